@@ -158,7 +158,9 @@ PROPS = {
                 "value-identical per line (JSON), in order, once; a metadata document in the output is the one currently set; pending <= batch size. Distinct = distinct history line.",
         "level_text": "Theorems (Props/C17.lean): output = metadata (if set) ++ held samples and nothing else; accepted Add appends exactly that document, rejected Add "
                       "changes nothing; pending never exceeds the batch size for every sequence of Adds; Reset keeps encoding and metadata; a streaming flush writes "
-                      "exactly the resolved documents once and conserves written ++ pending; the schema-aware variant resets in place (fix F16).",
+                      "exactly the resolved documents once and conserves written ++ pending; ustreaming_faithful_log: after ANY sequence of Adds what the streaming variant has "
+                      "written followed by the pending documents is exactly the accepted documents - the documents themselves, once each, in order; the schema-aware variant "
+                      "resets in place (fix F16).",
         "level_note": "The JSON rendering of one document (bson.MarshalExtJSON) is external: the oracle parses every line back and compares values. In the streaming variants "
                       "the metadata document precedes the samples of every flush (each flush is one Resolve). A rejected Add of a non-empty document into a collector holding "
                       "only empty documents changes the remembered field count (corner outside this property; noted in DESIGN.md).",
